@@ -77,6 +77,23 @@ def run(ctx: core.Ctx):
                     got = f"{type(ex).__name__}: {ex}"
                 if got != want:
                     ctx.violation(f"Antecedent.load/postfix/style={st}", {"text": text, "tree": t["tree"]}, want, got, note=f"'{text}' is read as '{got}'")
+                # the same text given to ONE long-lived, already loaded rule and loaded again (no unload in between), alone and through its block
+                if "rule" not in run.__dict__:
+                    run.__dict__["rule"] = fl.Rule.create("if a is lo then z is t", syn)
+                    run.__dict__["block"] = fl.RuleBlock("long", rules=[run.__dict__["rule"]])
+                lr = run.__dict__["rule"]
+                try:
+                    lr.text = f"if {text} then z is t"
+                    if ti % 2:
+                        lr.load(syn)
+                    else:
+                        run.__dict__["block"].load_rules(syn)
+                    got2 = lr.antecedent.postfix()
+                except Exception as ex:
+                    got2 = f"{type(ex).__name__}: {ex}"
+                if got2 != want:
+                    ctx.violation(f"Antecedent.load/long-lived-rule/postfix/style={st}", {"text": text, "tree": t["tree"]}, want, got2,
+                                  note=f"a loaded rule given the text '{text}' and loaded again reads it as '{got2}'")
         ctx.case(("tree", ti), nontrivial=t["tree"]["kind"] != "p")
     ctx.traces += len(trees)
     ctx.sample({"tree": trees[700]["tree"], "styles": [" ".join(s) for s in trees[700]["shown"]], "postfix": " ".join(trees[700]["postfix"])})
